@@ -513,12 +513,20 @@ pub fn lower_case(input_string_value: &Value) -> Value {
 pub fn matches(input_string_value: &Value, pattern_string_value: &Value, flags_string_value: &Value) -> Value {
   if let Value::String(input_string) = input_string_value {
     if let Value::String(pattern_string) = pattern_string_value {
-      if let Value::String(flags_string) = flags_string_value {
-        if let Ok(re) = Regex::new(format!("(?{}){}", flags_string, pattern_string).as_str()) {
-          return Value::Boolean(re.is_match(input_string));
+      match flags_string_value {
+        Value::String(flags_string) if !flags_string.is_empty() => {
+          if let Ok(re) = Regex::new(format!("(?{}){}", flags_string, pattern_string).as_str()) {
+            return Value::Boolean(re.is_match(input_string));
+          }
         }
-      } else if let Ok(re) = Regex::new(pattern_string) {
-        return Value::Boolean(re.is_match(input_string));
+        // no flags: the parameter is absent (the dispatchers pass null) or an empty string
+        Value::String(_) | Value::Null(_) => {
+          if let Ok(re) = Regex::new(pattern_string) {
+            return Value::Boolean(re.is_match(input_string));
+          }
+        }
+        // flags that are not a string are outside the domain
+        _ => {}
       }
     }
   }
